@@ -4,6 +4,8 @@
 
 pub mod alloc;
 pub mod args;
+pub mod bencode;
+pub mod json;
 
 
 pub mod model;
